@@ -605,4 +605,45 @@ example :
 example : hardListed false demo 1 = [.str "hard"] ∧ hardListed true demo 0 = [] ∧ checkFeasible 0 0 demo 1 = false
     ∧ checkFeasible 1 0 demo 1 = true ∧ (demo.map (satisfiedFl id 0 0 · 1)) = [true, false, true] := by decide +kernel
 
+/-! ## Round 8: one sample given as an (empty) mapping -/
+
+/-- **`from_samples_cqm` agrees with the per-sample reports for EVERY sample, the empty dict included.**  With the repaired first
+    branch (`not isinstance(samples_like, abc.Mapping) and len(samples_like) == 0`) one sample given as a mapping — whatever its
+    length, so also `{}` for a model without variables — goes through the loop: `constraint_labels` is present, there is one
+    `is_satisfied` column per constraint, and for row 0 (distinct constraint labels) `is_feasible` is `check_feasible` of the same
+    sample, every `is_satisfied` entry is the definition's `satisfied`, the energy is the definition's.  An argument that is not a
+    mapping behaves as before (`fromSamplesCqmTop`, theorem `from_samples_cqm_branches`). -/
+theorem from_samples_cqm_one_mapping_sample (lenArg n : Nat) (atol rtol : Rat) (garbage : Nat → Nat → Bool) (obj : Nat → Rat)
+    (cs : List CEval) (hnd : (cs.map (·.label)).Nodup) (hn : 0 < n) :
+    fromSamplesCqmArg true lenArg n atol rtol garbage obj cs = (fromSamplesCqm n atol rtol garbage obj cs, true)
+    ∧ fromSamplesCqmArg false lenArg n atol rtol garbage obj cs = fromSamplesCqmTop lenArg n atol rtol garbage obj cs
+    ∧ (fromSamplesCqmArg true lenArg n atol rtol garbage obj cs).1.isSatisfied.length = cs.length
+    ∧ ((fromSamplesCqmArg true lenArg n atol rtol garbage obj cs).1.isFeasible 0 = checkFeasible atol rtol cs 0)
+    ∧ ((fromSamplesCqmArg true lenArg n atol rtol garbage obj cs).1.isFeasible 0 = true
+        ↔ ∀ c ∈ cs, c.weight = none → violation c 0 ≤ atol + rtol * |c.rhs|) := by
+  have h1 : fromSamplesCqmArg true lenArg n atol rtol garbage obj cs = (fromSamplesCqm n atol rtol garbage obj cs, true) := by
+    simp [fromSamplesCqmArg]
+  have hx := feasibility_cross_consistent n atol rtol garbage obj cs hnd 0 hn
+  refine ⟨h1, ?_, ?_, ?_, ?_⟩
+  · unfold fromSamplesCqmArg fromSamplesCqmTop
+    by_cases h : lenArg = 0 <;> simp [h]
+  · rw [h1]; simp [vec_isSatisfied]
+  · rw [h1]
+    cases hc : checkFeasible atol rtol cs 0 with
+    | true => exact hx.2.1.mpr (hx.1.mp hc)
+    | false =>
+      cases hf : (fromSamplesCqm n atol rtol garbage obj cs).isFeasible 0 with
+      | false => rfl
+      | true => exact absurd (hx.1.mpr (hx.2.1.mp hf)) (by simp [hc])
+  · rw [h1]; exact hx.2.1
+
+/-- a model without variables: objective 3/2, hard `2 <= 1` (violated), soft `1/2 <= 1` (met): the empty dict is one row,
+    infeasible, first constraint not satisfied, second satisfied; the empty LIST has no rows -/
+example :
+    let cs : List CEval := [{ label := .str "c", lhs := fun _ => 2, rhs := 1, sense := .le, weight := none, quad := false },
+                            { label := .str "d", lhs := fun _ => 1/2, rhs := 1, sense := .le, weight := some 2, quad := false }]
+    let res := fromSamplesCqmArg true 0 1 0 0 (fun _ _ => true) (fun _ => 3/2) cs
+    res.2 = true ∧ res.1.isFeasible 0 = false ∧ res.1.isSatisfied.map (· 0) = [false, true] ∧ res.1.energies 0 = 3/2
+    ∧ (fromSamplesCqmArg false 0 0 0 0 (fun _ _ => true) (fun _ => 3/2) cs).2 = false := by decide +kernel
+
 end C08
